@@ -111,9 +111,9 @@ def power_law(ctx, n, b, arr=False, cut_off=0.0, split=None):
     ctx.claim('amplitude_at_cycles_of_a_ref_is_a_ref', ctx.eq(fa[-1], a_ref, 10.0, rtol=1e-7))
 
 
-def scaling(ctx, n, b, alpha=2.5, split=None):
+def scaling(ctx, n, b, alpha=2.5, split=None, kind='f'):
     im = ctx.lib.im
-    x = ctx.arr('x', n, -10.0, 10.0)
+    x = ctx.iarr('x', n, -10, 10) if kind == 'i' else ctx.arr('x', n, -10.0, 10.0)
     n_cyc = ctx.real('n_cyc', 0.5, 30.0)
     a_ref = ctx.real('a_ref', 0.1, 10.0)
     ctx.assume(S.sym_or(*[x[j] != x[0] for j in range(1, n)]))
@@ -130,6 +130,11 @@ def scaling(ctx, n, b, alpha=2.5, split=None):
     ctx.claim('geometric_mean_of_identical_components', S.sym_and(*[ctx.eq(gm[i], amp[i], 1e3, rtol=1e-7) for i in range(n)]))
     # comb = 2**b * amp  <=>  comb**(1/b) = 2 * amp**(1/b) for non-negative amplitudes (1/b is an integer here): the
     # exact algebraic form, with no rounded irrational constant
+    if b >= 1:
+        # integer exponent: 2**b is an exact rational
+        ctx.claim('combined_identical_components_is_2_pow_b',
+                  S.sym_and(*[ctx.eq(comb[i], (2 ** int(b)) * amp[i], 1e3, rtol=1e-7) for i in range(n)]))
+        return
     kk = int(round(1.0 / b))
     ctx.claim('combined_identical_components_is_2_pow_b',
               S.sym_and(*[S.sym_and(comb[i] >= 0, amp[i] >= 0, ctx.eq(comb[i] ** kk, 2 * amp[i] ** kk, 1e3 ** kk, rtol=1e-7))
